@@ -1,9 +1,10 @@
 (* C05 driver.
-   emit   sk is_eups fwd old new aliases oldaliases
-          -> ok  text  (ok env | err kind)  protect-env  flags      model emitter, its text run by the
-                                                                    model shell on old, expected env,
-                                                                    hypotheses of emit_sound (4 bits:
-                                                                    claim names gone nodup)
+   emit   sk is_eups fwd caller new aliases oldaliases forced
+          -> ok  text  (ok env | err kind)  protect-env  flags      model emitter on the baseline
+                                                                    (forget forced caller), its text run
+                                                                    by the model shell on caller, expected
+                                                                    env, hypotheses of emit_sound_forced
+                                                                    (5 bits: claim names gone nodup forced)
           -> err kind                                               emitter raised
    source text env  -> ok env | err kind                            model shell alone
    lex    text      -> ok cmd|cmd (words comma separated) | err kind *)
@@ -36,16 +37,18 @@ let handle (f : string array) : string =
   match f.(0) with
   | "emit" ->
     let is_eups = bool_of_field f.(2) and fwd = bool_of_field f.(3) in
-    let old = dec_env f.(4) and nw = dec_env f.(5) in
+    let caller = dec_env f.(4) and nw = dec_env f.(5) in
+    let forced = if Array.length f > 8 then dec_strlist ',' f.(8) else [] in
+    let old = forget forced caller in
     (match emit (sk_of f.(1)) is_eups fwd old nw (dec_env f.(6)) (dec_oldal f.(7)) with
      | Err k -> "err\t" ^ err_name k
      | Ok cmds ->
        let text = render cmds in
        let flags = String.concat "" (List.map field_of_bool
          [claim_env old nw; valid_names old && valid_names nw; gone_ok is_eups fwd old nw;
-          nodup_keys (List.map fst nw)]) in
-       "ok\t" ^ enc_str text ^ "\t" ^ show_env (sh_source text old) ^ "\t" ^
-       enc_env (protect is_eups old (new_after is_eups fwd nw)) ^ "\t" ^ flags)
+          nodup_keys (List.map fst nw); forced_ok forced (new_after is_eups fwd nw)]) in
+       "ok\t" ^ enc_str text ^ "\t" ^ show_env (sh_source text caller) ^ "\t" ^
+       enc_env (protect is_eups caller (new_after is_eups fwd nw)) ^ "\t" ^ flags)
   | "failed" ->
     let text = render emit_failed in
     "ok\t" ^ enc_str text ^ "\t" ^ show_env (sh_source text (dec_env f.(1)))
